@@ -73,7 +73,15 @@ pub fn exec(toks: &[&str]) -> String {
         },
         _ => return "bad-op".into(),
     };
-    if ok { "ok".into() } else { "err".into() }
+    if ok {
+        // "the EE certificate validates under the issuer": put the question to the certificate validator itself
+        let strict = !matches!(ty, "sor" | "roar");
+        let at = if matches!(ty, "so" | "sor" | "mft") { c01::time(now) } else { rpki::repository::x509::Time::now() };
+        let ee_ok = SignedObject::decode(Bytes::from(ders.last().unwrap().clone()), strict).ok()
+            .map(|o| o.cert().clone().validate_ee_at(&issuer, strict, at).is_ok());
+        if ee_ok == Some(false) { return "ok EE=refused".into() }
+        "ok".into()
+    } else { "err".into() }
 }
 
 //------------ generation ----------------------------------------------------
